@@ -6,7 +6,8 @@ command -v tlc >/dev/null
 command -v tla-sany >/dev/null
 command -v clang >/dev/null
 command -v python3 >/dev/null
-for m in CatTrace; do
+command -v apalache-mc >/dev/null
+for m in CatTrace MC_Line MC_Ext MC_Fn CatThreadsTrace; do
     (cd spec && tla-sany $m.tla >/dev/null 2>&1) || { echo "specification $m does not parse"; exit 1; }
 done
 echo "setup ok"
